@@ -1,5 +1,5 @@
 (* C13/Properties.v — the property's clauses as theorems (statements only; proofs are in Proofs*.v). *)
-From Verif Require Import Common.Base C13.Model C13.Spec C13.Proofs1 C13.Proofs2 C13.Proofs3 C13.Proofs4 C13.Proofs5 C13.Proofs6 C13.Proofs7 C13.Proofs8 C13.Proofs9 C13.Proofs10 C13.Proofs11 C13.ProofsC C13.Checkers C13.Instances C13.Translated.
+From Verif Require Import Common.Base C13.Model C13.Spec C13.Proofs1 C13.Proofs2 C13.Proofs3 C13.Proofs4 C13.Proofs5 C13.Proofs6 C13.Proofs7 C13.Proofs8 C13.Proofs9 C13.Proofs10 C13.Proofs11 C13.ProofsC C13.ProofsL C13.Checkers C13.Harness C13.Instances C13.Translated.
 From Verif Require Import Generated.C13Telemetry Generated.C13Levels.
 From Verif Require Import Generated.C13CfgSchema.
 From Coq Require Import String.
@@ -220,20 +220,19 @@ Theorem kind_mismatch_rejected : forall k w, family_mismatch k w = true -> decod
 Proof. exact mismatch_rejected_l. Qed.
 Print Assumptions kind_mismatch_rejected.
 
-(* full statement "an accepted value is never silently coerced into a different value":
-     forall k w r, decode_leaf k w = r -> r <> DErr -> r <> DKeep -> same_value w r
-   is FALSE of the faithful model (and of the code): a float with a fraction written for an
-   integer-kind field is truncated (known finding C13-FLOAT-TRUNCATED) ... *)
-Theorem no_silent_coercion_refuted :
-  exists k w r, decode_leaf k w = r /\ r <> DErr /\ r <> DKeep /\ ~ same_value w r.
-Proof. exact no_silent_coercion_refuted_l. Qed.
-Print Assumptions no_silent_coercion_refuted.
+(* an accepted value is never silently coerced into a different value: for every kind and every
+   written value (full since fix 91bc960c3; the float-truncation witness is now rejected:
+   fraction_for_integer_rejected) *)
+Theorem no_silent_coercion : forall k w r,
+  decode_leaf k w = r -> r <> DErr -> r <> DKeep -> same_value w r.
+Proof. exact no_silent_coercion_l. Qed.
+Print Assumptions no_silent_coercion.
 
-(* ... and that truncation is the ONLY exception, for all kinds and all written values *)
-Theorem no_silent_coercion_partial : forall k w r,
-  truncating k w = false -> decode_leaf k w = r -> r <> DErr -> r <> DKeep -> same_value w r.
-Proof. exact no_silent_coercion_partial_l. Qed.
-Print Assumptions no_silent_coercion_partial.
+Theorem fraction_for_integer_rejected : forall z,
+  decode_leaf KInt (WFloat z true) = DErr /\ decode_leaf KUint (WFloat z true) = DErr /\
+  decode_leaf KDuration (WFloat z true) = DErr.
+Proof. exact fraction_rejected_l. Qed.
+Print Assumptions fraction_for_integer_rejected.
 
 Theorem null_leaves_default : forall k, decode_leaf k WNull = DKeep.
 Proof. exact null_keeps_l. Qed.
@@ -303,15 +302,23 @@ Theorem watchers_isolated : forall exts conf,
 Proof. exact notify_isolated_l. Qed.
 Print Assumptions watchers_isolated.
 
-(* a section that is nil in the typed configuration is written `key: null` in the effective
-   configuration (no omitempty) and comes back with its defaults when that is decoded: the round
-   trip also fails there (known finding C13-NIL-SECTION-RENDERED-NULL; compat excludes nil sections) *)
-Theorem encode_decode_nil_refuted : exists d v,
-  encode_o v = CMap [("grpc"%string, CNull)] /\
-  tv_get ["grpc"%string] (o_strip v) = None /\
-  tv_get ["grpc"%string] (overlay (o_strip d) (Some (encode_o v))) <> None.
-Proof. exact encode_decode_nil_refuted_l. Qed.
-Print Assumptions encode_decode_nil_refuted.
+(* a nil section whose field is omitempty — the OTLP receiver's protocols since fix 12e040cda — is absent
+   from the effective configuration (it used to be written `null`, which means "enabled with defaults") *)
+Theorem nil_section_absent : forall o fs k,
+  NoDup (map fst fs) -> In (k, ONil true) fs -> cv_get [k] (Some (encode_o (ORec o fs))) = None.
+Proof. exact nil_section_absent_l. Qed.
+Print Assumptions nil_section_absent.
+
+(* and the effective configuration of a receiver with an unwritten protocol decodes back to the typed
+   configuration: the protocol stays nil (the former failing input, now a theorem) *)
+Theorem nil_section_round_trip :
+  let d := ORec false [("protocols"%string, ORec false [("grpc"%string, ORec false [("endpoint"%string, OSc false false "localhost:4317"%string)]);
+                                                  ("http"%string, ORec false [("endpoint"%string, OSc false false "localhost:4318"%string)])])] in
+  let v := ORec false [("protocols"%string, ORec false [("grpc"%string, ORec false [("endpoint"%string, OSc false false "a:1"%string)]);
+                                                  ("http"%string, ONil true)])] in
+  decode_model "receivers/otlp" (o_strip d) (encode_o v) = o_strip v.
+Proof. exact nil_section_round_trip_l. Qed.
+Print Assumptions nil_section_round_trip.
 
 (* ---- ONE theorem about the encoder, all shapes (nil pointers / interfaces, slices, arrays, maps
         with string or TextMarshaler keys, plain and opaque TextMarshalers, omitempty, "-") ------- *)
@@ -439,3 +446,53 @@ Theorem disjoint_level_has_unique_keys : forall rem fs,
   squash_keys_disjoint (TStruct rem fs) = true -> NoDup (map fst (flat_of (TStruct rem fs))).
 Proof. exact disjoint_level_unique_keys. Qed.
 Print Assumptions disjoint_level_has_unique_keys.
+
+(* ---- strictness below service::telemetry at the `,remain` levels (full since fix 2d582bf11: before it
+        an unknown key there made the loader panic) ------------------------------------------------ *)
+Theorem telemetry_remain_levels_strict : forall name T v p k,
+  In (name, T) remain_levels -> unk T v p k -> decode_strict_ok T v = false /\ In (p, k) (unused T v).
+Proof. exact remain_levels_strict_l. Qed.
+Print Assumptions telemetry_remain_levels_strict.
+
+Theorem telemetry_remain_levels_guarded :
+  forallb (fun e => no_remain (snd e)) remain_levels = true /\ (5 <=? List.length remain_levels)%nat = true.
+Proof. exact remain_levels_guarded_l. Qed.
+Print Assumptions telemetry_remain_levels_guarded.
+
+Theorem telemetry_remain_level_rejects_unknown_key :
+  forallb (fun e => match unused (snd e) (CMap [("zzz_unknown"%string, CScalar "1"%string)]) with [([], k)] => String.eqb k "zzz_unknown" | _ => false end) remain_levels = true.
+Proof. vm_compute. reflexivity. Qed.
+Print Assumptions telemetry_remain_level_rejects_unknown_key.
+
+(* ---- LINK: the model's own run always passes the clause checkers --------------------------------- *)
+
+(* for EVERY case input (under exactly the well-formedness guards of the theorems: unique keys, a schema
+   entry that exists), the case record built from the model's own output satisfies every clause checker:
+   the checkers never demand more than the model delivers, so a checker verdict "violated" on an observed
+   case is a statement about the implementation, and "no violation on N cases" is no longer only empirical *)
+Theorem model_passes_checker : forall c, case_wf c -> prop_ok (observe_model c) = true.
+Proof. exact model_passes_checker_l. Qed.
+Print Assumptions model_passes_checker.
+
+(* the written-keys checker decides its clause in both directions (unique keys) *)
+Theorem checker_written_reflected : forall d m obs, tv_wf d ->
+  (written_reflected_b d m obs = true <->
+   forall p s0 s, leaf_at d p s0 -> written (Some m) p s -> leaf_at obs p s).
+Proof. exact written_reflected_b_iff. Qed.
+Print Assumptions checker_written_reflected.
+
+(* the map-order-insensitive equality used by the notify / reload / encoder-exactness clauses: accepted in
+   both directions => the same value up to the order of map entries; and it accepts every value itself *)
+Theorem checker_cv_equal_sound : forall a b, cv_wf a -> cv_wf b -> cv_both a b = true -> cv_equiv a b.
+Proof. exact cv_both_sound. Qed.
+Print Assumptions checker_cv_equal_sound.
+
+Theorem checker_cv_equal_refl : forall c, cv_wf c -> cv_both c c = true.
+Proof. exact cv_both_refl. Qed.
+Print Assumptions checker_cv_equal_refl.
+
+(* the encoding of a value with unique names has unique keys (the guard of the equality above holds
+   for everything the encoder model produces) *)
+Theorem encoder_output_has_unique_keys : forall v, x_wf v -> cv_wf (encode_x v).
+Proof. exact encode_x_wf. Qed.
+Print Assumptions encoder_output_has_unique_keys.
